@@ -103,6 +103,38 @@ def sol_quorum_expr(repo):
     return _arith(m.group(1), var)
 
 
+def sol_quorum_use(repo):
+    """the condition under which verifyVM answers (false, "no quorum"), as a Go boolean expression over s (number of
+    signatures) and n (number of guardian keys); quorum(...) becomes verifSolQuorum(...)"""
+    src = _strip_comments(open(os.path.join(repo, "ethereum/contracts/Messages.sol")).read())
+    body = _func_body(src, r"function\s+verifyVM\s*\([^)]*\)[^{]*\{")
+    ms = re.findall(r'if\s*\(([^{};]+)\)\s*\{\s*return\s*\(\s*false\s*,\s*"no quorum"\s*\)', body)
+    if len(ms) != 1:
+        raise ExtractError('verifyVM: expected exactly one `if (...) { return (false, "no quorum")`, found %d' % len(ms))
+    e = ms[0].replace("vm.signatures.length", "s").replace("guardianSet.keys.length", "n")
+    e = re.sub(r"\bquorum\s*\(", "verifSolQuorum(", e)
+    if not re.fullmatch(r"(?:verifSolQuorum|[sn0-9+\-*/()<>=!&| \t\n])+", e):
+        raise ExtractError("verifyVM: unsupported quorum condition: " + ms[0])
+    return " ".join(e.split())
+
+
+def ral_quorum_use(repo):
+    """the condition parseAndVerifyVAA asserts about the signature count, over s and n; quorumSize becomes verifRalQuorum(n)"""
+    src = _strip_comments(open(os.path.join(repo, "alephium/contracts/governance.ral")).read())
+    body = _func_body(src, r"pub\s+fn\s+parseAndVerifyVAA\s*\([^)]*\)[^{]*\{")
+    ms = re.findall(r"assert!\(([^,\n]+),\s*ErrorCodes\.InvalidSignatureSize\)", body)
+    if len(ms) != 1:
+        raise ExtractError("parseAndVerifyVAA: expected exactly one assert!(..., ErrorCodes.InvalidSignatureSize), found %d" % len(ms))
+    if not re.search(r"let\s+signatureSize\s*=\s*u256From1Byte!\(byteVecSlice!\(data,\s*5,\s*6\)\)", body) or not re.search(r"let\s+guardianSize\s*=\s*u256From1Byte!\(byteVecSlice!\(guardians,\s*0,\s*1\)\)", body):
+        raise ExtractError("parseAndVerifyVAA: signatureSize / guardianSize definitions not recognised")
+    e = re.sub(r"\bquorumSize\b", "verifRalQuorum(n)", ms[0])
+    e = re.sub(r"\bsignatureSize\b", "s", e)
+    e = re.sub(r"\bguardianSize\b", "n", e)
+    if not re.fullmatch(r"(?:verifRalQuorum\(n\)|[sn0-9+\-*/()<>=!&| \t])+", e):
+        raise ExtractError("parseAndVerifyVAA: unsupported signature-count condition: " + ms[0])
+    return " ".join(e.split())
+
+
 def _arith(expr, var):
     e = re.sub(r"\b%s\b" % re.escape(var), "n", expr.strip())
     if not re.fullmatch(r"[n0-9+\-*/() \t]+", e):
@@ -117,9 +149,6 @@ def ral_quorum_expr(repo):
     m = re.search(r"let\s+quorumSize\s*=\s*([^\n]+)", src)
     if not m:
         raise ExtractError("governance.ral: quorumSize not found")
-    m2 = re.search(r"assert!\(quorumSize\s*<=\s*signatureSize", src)
-    if not m2:
-        raise ExtractError("governance.ral: quorumSize <= signatureSize check not found")
     return _arith(m.group(1), "guardianSize")
 
 
